@@ -344,6 +344,11 @@ def checkCase (j : Json) : Except String Verdict := do
             let stj := getJ ora "state"
             let cbin : CbIn := { errorParam := first (vals q "error"), code := first (vals q "code"), login := login, stateDecodes := boolD stj "decodes", stateNonce := strD stj "nonce", stateRedirect := strD stj "redirect", stateHasColon := boolD stj "hasColon", csrfCookie := if (getJ presented "csrf").isNull then none else some (strD presented "csrf"), redirectValid := boolD stj "redirectValid" }
             let _ := stv
+            -- the CSRF cookie is used up exactly when the handler got as far as reading one (`jarStep`)
+            let consumed := readsCookie cbin && cbin.csrfCookie.isSome
+            let cleared := setCookies.any fun x => strD x "name" == cname ++ "_csrf" && boolD x "expired"
+            let reset := setCookies.any fun x => strD x "name" == cname ++ "_csrf" && !(boolD x "expired")
+            v := v.cmp idx "callback.csrfConsumed" (consumed, false) (cleared, reset) ["C09"]
             match oauthCallback emailOK cbin with
             | .session e l =>
               v := v.cmp idx "callback.status" 302 status ["C09", "C10"]
